@@ -244,6 +244,30 @@ Theorem C05_spec_new_carries_template_properties :
 Proof. exact add_supers_carries. Qed.
 Print Assumptions C05_spec_new_carries_template_properties.
 
+(* literals: every evaluation of a list / map literal yields a container that did not exist when
+   its items had been evaluated, holding the values of THIS evaluation of the items — applied to
+   the nested literals among the items: two evaluations of the same literal (two calls, two
+   iterations, two uses of a parameter default) share no container at any level. *)
+Theorem C05_spec_list_literal_allocates :
+  forall n F es st st' v,
+    eval (S n) F (EList es) st = (st', ROk v) ->
+    exists st1 vs, eval_list n F es st = (st1, ROk vs) /\
+      nth_error (st_heap st1) (length (st_heap st1)) = None /\
+      v = VRef (length (st_heap st1)) /\ st_heap st' = st_heap st1 ++ [LList vs] /\
+      st_frames st' = st_frames st1.
+Proof. exact eval_list_literal_allocates. Qed.
+Print Assumptions C05_spec_list_literal_allocates.
+
+Theorem C05_spec_map_literal_allocates :
+  forall n F kvs st st' v,
+    eval (S n) F (EMap kvs) st = (st', ROk v) ->
+    exists st1 m, eval_entries n F kvs st = (st1, ROk m) /\
+      nth_error (st_heap st1) (length (st_heap st1)) = None /\
+      v = VRef (length (st_heap st1)) /\ st_heap st' = st_heap st1 ++ [LMap m] /\
+      st_frames st' = st_frames st1.
+Proof. exact eval_map_literal_allocates. Qed.
+Print Assumptions C05_spec_map_literal_allocates.
+
 (* ---- non-vacuity ----------------------------------------------------------------------------------- *)
 Local Open Scope N_scope.
 Definition nA : name := [97]. Definition nB : name := [98]. Definition nC : name := [99].
@@ -318,3 +342,28 @@ Example C05_example_objects :
   let '(st, r) := run_program ex_objects in
   r = ROk tt /\ rev (st_trace st) = [[34;65;34]; [34;67;34]; [91;52;44;50;44;57;44;49;93]].
 Proof. vm_compute. split; reflexivity. Qed.
+
+(* Part B: a literal with nested containers is evaluated by every call / by every use of a
+   parameter default: a write into a nested container of one result is not seen through another. *)
+Definition ex_fresh_call : list stmt :=
+  [ SFunc nD [] [ SLet nE (EList [EList [ENum 0; ENum 0]; EList [ENum 0; ENum 0]]); SReturn (EPath nE []) ];
+    SAssign nA [] (ECall nD [] []);
+    SAssign nA [AIdx (ENum 0); AIdx (ENum 1)] (ENum 7);
+    SAssign nB [] (ECall nD [] []);
+    SMark (EList [EPath nA []; EPath nB []]) ].
+
+Definition ex_fresh_default : list stmt :=
+  [ SFunc nD [(nE, Some (EList [EMap [(EStr kx, EList [ENum 1; ENum 2])]; EList [ENum 3]]))] [ SReturn (EPath nE []) ];
+    SAssign nA [] (ECall nD [] []);
+    SAssign nB [] (ECall nD [] []);
+    SAssign nA [AIdx (ENum 0); ADot kx; AIdx (ENum (-1))] (ENum 9);
+    SAssign nB [AIdx (ENum 1); AIdx (ENum 0)] (ENum 8);
+    SAssign nC [] (ECall nD [] []);
+    SMark (EList [EPath nA []; EPath nB []; EPath nC []]) ].
+
+Example C05_example_fresh_literals :
+  (let '(st, r) := run_program ex_fresh_call in
+   r = ROk tt /\ rev (st_trace st) = [[91;91;91;48;44;55;93;44;91;48;44;48;93;93;44;91;91;48;44;48;93;44;91;48;44;48;93;93;93]]) /\
+  (let '(st, r) := run_program ex_fresh_default in
+   r = ROk tt /\ rev (st_trace st) = [[91;91;123;120;58;91;49;44;57;93;125;44;91;51;93;93;44;91;123;120;58;91;49;44;50;93;125;44;91;56;93;93;44;91;123;120;58;91;49;44;50;93;125;44;91;51;93;93;93]]).
+Proof. vm_compute. repeat split; reflexivity. Qed.
